@@ -26,7 +26,7 @@ MAX_LOG = 250
 FEATURES = ("deco-order", "temp-inst", "native-enclosing", "comp-target", "global-skip", "class-in-func", "del-global",
             "nested-default")
 # features added later draw from a generator of their own, so that the programs of the earlier rounds stay the same
-LATE_FEATURES = ("nonlocal-skip",)
+LATE_FEATURES = ("nonlocal-skip", "ann-captured")
 
 
 def I(n):
@@ -169,6 +169,9 @@ class Gen:
             if self.feat.get("nonlocal-skip", True) or nl in direct:
                 code["nonlocals"] = [nl]
         inner["globals"] = code["globals"]
+        inner["nonlocals"] = code["nonlocals"]
+        # names that hold a list in the scopes around (hint for subscripts through captured containers)
+        inner["encl_lists"] = set(ctx.get("lists", ())) | set(ctx.get("encl_lists", ()))
         code["body"] = self.gen_block(inner, r.randint(2, 6))
         if not any(s["k"] == "ret" for s in code["body"]) and r.random() < 0.6:
             code["body"].append({"k": "ret", "e": self.atom(inner) if r.random() < 0.7 else self.ev(self.atom(inner)), "g": 0})
@@ -290,12 +293,21 @@ class Gen:
         if kind == "func":
             choices += ["ret", "nonread"]
             if not deep:
-                choices += ["nlclosure", "nlclosure"]
+                choices += ["nlclosure", "nlclosure", "subclosure"]
         if kind in ("func", "module") and not deep:
             choices += ["glclosure"]
         if self.classes:
             choices += ["inst", "inst", "mcall", "mcall", "attr", "setattr", "tempcall"]
+        # round 4: list objects, subscripts and the other target forms of binding statements
+        choices += ["sub"] * 4
         k = r.choice(choices)
+        if k == "sub":
+            kinds = ["mklist", "mklist", "subload", "subload", "substore", "substore", "subaug", "subdel", "tupstore", "chainstore"]
+            if self.feat.get("ann-captured"):
+                kinds += ["annassign", "annassign"]
+            if not deep:
+                kinds += ["forsub", "withsub"]
+            return self.sub_stmt(ctx, r.choice(kinds))
         if k == "assign":
             x = r.choice(VARS)
             e = self.const() if r.random() < 0.7 else self.atom(ctx)
@@ -451,6 +463,38 @@ class Gen:
                         {"k": "expr", "e": self.ev({"k": "call", "f": N(fx), "args": [], "kws": []}), "g": self.site()},
                         {"k": "expr", "e": self.ev(N(x)), "g": self.site()}]
             return out
+        if k == "subclosure":
+            # a list (and an index) bound here; an inner function whose ONLY mention of them is inside the target of a
+            # store / augmented store / del / for / with (or a subscript load); called at once, the list is read out here
+            self.budget -= 2
+            x, ix = r.sample(VARS, 2)
+            fx = r.choice(FUNCS)
+            ci = len(self.codes)
+            self.codes.append(None)
+            i = N(ix) if r.random() < 0.5 else I(r.choice([0, 1]))
+            t = {"k": "tsub", "o": N(x), "i": i}
+            kind2 = r.choice(["store", "tup", "chain", "aug", "del", "for", "with", "load"])
+            y = r.choice([v for v in VARS if v not in (x, ix)])
+            body = {"store": [{"k": "store", "ts": [t], "e": self.const(), "g": 0}],
+                    "tup": [{"k": "store", "ts": [{"k": "ttuple", "ts": [t, {"k": "tname", "x": y}]}],
+                             "e": {"k": "mklist", "es": [self.const(), self.const()]}, "g": 0}],
+                    "chain": [{"k": "store", "ts": [{"k": "tname", "x": y}, t], "e": self.const(), "g": 0}],
+                    "aug": [{"k": "augsub", "o": t["o"], "i": t["i"], "g": 0}],
+                    "del": [{"k": "delsub", "o": t["o"], "i": t["i"], "g": 0}],
+                    "for": [{"k": "fort", "t": t, "ns": [self.const()["n"]], "body": [], "g": 0}],
+                    "with": [{"k": "witht", "t": t, "e": self.const(), "body": [], "g": 0}],
+                    "load": [{"k": "expr", "e": self.ev({"k": "sub", "o": t["o"], "i": t["i"]}), "g": 0}]}[kind2]
+            self.codes[ci] = new_code("func", body=body)
+            self.sigs[fx] = EMPTY_SIG()
+            for n_ in (x, ix, fx):
+                self.bind(ctx, n_)
+            ctx.setdefault("lists", set()).add(x)
+            return [{"k": "assign", "x": x, "e": {"k": "mklist", "es": [self.const(), self.const()]}, "g": 0},
+                    {"k": "assign", "x": ix, "e": I(r.choice([0, 1])), "g": 0},
+                    {"k": "def", "x": fx, "c": ci + 1, "decos": [], "g": 0},
+                    {"k": "expr", "e": self.ev({"k": "call", "f": N(fx), "args": [], "kws": []}), "g": self.site()},
+                    {"k": "expr", "e": self.ev({"k": "sub", "o": N(x), "i": I(0)}), "g": self.site()},
+                    {"k": "expr", "e": self.ev(N(x)), "g": self.site()}]
         if k == "ifrec":
             # bounded recursion: f(n) calls f(n - 1) while n > 0
             if kind != "func" or ctx.get("method") or "p0" not in ctx["sig"]["pk"] + ctx["sig"]["po"] or ctx.get("name") not in FUNCS:
@@ -508,6 +552,89 @@ class Gen:
                     out.extend(st if isinstance(st, list) else [st])
             return out
         return self.obj_stmt(ctx, k, r.choice(sorted(self.classes)))
+
+    def sub_stmt(self, ctx, k):
+        """statements with list objects, subscripts, tuple / chained / annotated targets.  The container is a name that
+        holds a list most of the time (a list bound in this scope, or any variable: then possibly an int, a function,
+        an unbound name - TypeError / NameError are part of the statement), the index an int in or (rarely) out of
+        range or a variable."""
+        r = self.r
+
+        def container():
+            ls = sorted(ctx.get("lists", ()))
+            el = sorted(ctx.get("encl_lists", ()))
+            if el and r.random() < 0.4:
+                return N(r.choice(el))                        # a list of an enclosing scope (captured, unless rebound here)
+            if ls and r.random() < 0.75:
+                return N(r.choice(ls))
+            return N(self.some_name(ctx, (VARS, VARS, PARAMS)))
+
+        def index():
+            c = r.random()
+            if c < 0.75:
+                return I(r.choice([0, 0, 1]))
+            if c < 0.85:
+                return I(2)                                   # out of range for the two-element lists made here
+            return N(self.some_name(ctx, (VARS, PARAMS)))
+
+        def tsub():
+            return {"k": "tsub", "o": container(), "i": index()}
+        if k == "mklist":
+            x = r.choice(VARS)
+            s_ = {"k": "assign", "x": x, "e": {"k": "mklist", "es": [self.atom(ctx), self.atom(ctx)]}, "g": self.guard(ctx)}
+            self.bind(ctx, x)
+            ctx.setdefault("lists", set()).add(x)
+            return s_
+        if k == "subload":
+            return {"k": "expr", "e": self.ev({"k": "sub", "o": container(), "i": index()}), "g": self.guard(ctx, always=True)}
+        if k == "substore":
+            return {"k": "store", "ts": [tsub()], "e": self.atom(ctx), "g": self.guard(ctx, always=True)}
+        if k == "subaug":
+            t = tsub()
+            return {"k": "augsub", "o": t["o"], "i": t["i"], "g": self.guard(ctx, always=True)}
+        if k == "subdel":
+            t = tsub()
+            return {"k": "delsub", "o": t["o"], "i": t["i"], "g": self.guard(ctx, always=True)}
+        if k == "tupstore":
+            ts = []
+            for _ in range(2):
+                if r.random() < 0.7:
+                    x = r.choice(VARS)
+                    self.bind(ctx, x)
+                    ts.append({"k": "tname", "x": x})
+                else:
+                    ts.append(tsub())
+            e = {"k": "mklist", "es": [self.atom(ctx), self.atom(ctx)]} if r.random() < 0.8 else container()
+            return {"k": "store", "ts": [{"k": "ttuple", "ts": ts}], "e": e, "g": self.guard(ctx, always=True)}
+        if k == "chainstore":
+            ts = []
+            for _ in range(2):
+                if r.random() < 0.7:
+                    x = r.choice(VARS)
+                    self.bind(ctx, x)
+                    ts.append({"k": "tname", "x": x})
+                else:
+                    ts.append(tsub())
+            return {"k": "store", "ts": ts, "e": self.atom(ctx), "g": self.guard(ctx, always=True)}
+        if k == "annassign":
+            x = r.choice(VARS)
+            if x in ctx.get("globals", []) or x in ctx.get("nonlocals", []):
+                return None                                   # CPython: annotated name can't be global / nonlocal
+            self.bind(ctx, x)
+            return {"k": "annassign", "x": x, "e": self.atom(ctx), "g": self.guard(ctx)}
+        inner = dict(ctx, depth=ctx["depth"] + 1)
+        if k == "forsub":
+            self.budget -= 1
+            t = tsub()
+            body = [s_ for s_ in self.gen_block(inner, r.randint(0, 1)) if s_["k"] != "ret"]
+            return {"k": "fort", "t": t, "ns": [self.const()["n"] for _ in range(r.randint(1, 2))], "body": body,
+                    "g": self.guard(ctx, always=True)}
+        if k == "withsub":
+            self.budget -= 1
+            t = tsub()
+            body = [s_ for s_ in self.gen_block(inner, r.randint(0, 1)) if s_["k"] != "ret"]
+            return {"k": "witht", "t": t, "e": self.const(), "body": body, "g": self.guard(ctx, always=True)}
+        return None
 
     def use_func(self, ctx, x, prob=0.75):
         """statements that call the function just bound to x (so that its body runs)"""
@@ -596,6 +723,12 @@ def walk_exprs(e):
         yield from walk_exprs(e["a"])
     elif k == "attr":
         yield from walk_exprs(e["o"])
+    elif k == "mklist":
+        for a in e["es"]:
+            yield from walk_exprs(a)
+    elif k == "sub":
+        yield from walk_exprs(e["o"])
+        yield from walk_exprs(e["i"])
     elif k == "call":
         yield from walk_exprs(e["f"])
         for a in e["args"]:
@@ -611,18 +744,48 @@ def walk_stmts(body):
             yield from walk_stmts(s["body"])
 
 
+def target_exprs(t):
+    """the expressions a target evaluates (container / index / object), mirror of PyScope.TExprs"""
+    if t["k"] == "tsub":
+        yield t["o"]
+        yield t["i"]
+    elif t["k"] == "tattr":
+        yield t["o"]
+    elif t["k"] == "ttuple":
+        for u in t["ts"]:
+            yield from target_exprs(u)
+
+
+def target_binds(t):
+    """the names a target binds, mirror of PyScope.TBinds"""
+    if t["k"] == "tname":
+        return {t["x"]}
+    if t["k"] == "ttuple":
+        return set().union(*[target_binds(u) for u in t["ts"]]) if t["ts"] else set()
+    return set()
+
+
+def stmt_targets(s):
+    return s["ts"] if s["k"] == "store" else [s["t"]] if s["k"] in ("fort", "witht") else []
+
+
 def stmt_exprs(s):
-    for key in ("e", "o"):
+    for key in ("e", "o", "i"):
         if key in s and isinstance(s[key], dict) and "k" in s[key]:
             yield from walk_exprs(s[key])
     for d in s.get("decos", []):
         yield from walk_exprs(d)
+    for t in stmt_targets(s):
+        for e in target_exprs(t):
+            yield from walk_exprs(e)
 
 
 def binds_name(s, x):
     """does statement s (or a statement nested in its blocks) bind or delete the name x"""
     for t in walk_stmts([s]):
         if t.get("x") == x or any(e["k"] == "walrus" and e["x"] == x for e in stmt_exprs(t)):
+            return True
+        if any(x in target_binds(u) for u in stmt_targets(t)):
             return True
     return False
 
@@ -631,8 +794,10 @@ def binds_of(code):
     """names bound in the code's own block (mirror of PyScope.BindsS; used for masks and statistics only)"""
     out = set()
     for s in walk_stmts(code["body"]):
-        if s["k"] in ("assign", "def", "class", "del", "for", "with", "tryexc"):
+        if s["k"] in ("assign", "def", "class", "del", "for", "with", "tryexc", "annassign"):
             out.add(s["x"])
+        for t in stmt_targets(s):
+            out |= target_binds(t)
         for e in stmt_exprs(s):
             if e["k"] == "walrus":
                 out.add(e["x"])
@@ -721,6 +886,8 @@ def loci(codes):
                     out.add("nested-default")
         if kind == "func" and code["globals"] and any(s["k"] == "del" and s["x"] in code["globals"] for s in walk_stmts(code["body"])):
             out.add("del-global")
+        if kind == "func" and any(s["k"] == "annassign" for s in walk_stmts(code["body"])):
+            out.add("ann-captured")         # an annotated assignment in a function's own block (locus annloc)
         if kind == "func":
             # a nonlocal name the function binds whose owner is not the function directly around (class bodies skipped)
             for x in set(code["nonlocals"]) & binds_of(code):
@@ -828,6 +995,10 @@ def render(codes):
             return "%s.%s" % (rex(e["o"]), e["a"])
         if k == "sub1":
             return "(%s - 1)" % rex(e["a"])
+        if k == "mklist":
+            return "[%s]" % ", ".join(rex(a) for a in e["es"])
+        if k == "sub":
+            return "%s[%s]" % (rex(e["o"]), rex(e["i"]))
         if k == "walrus":
             return "(%s := %s)" % (e["x"], rex(e["a"]))
         if k == "lambda":
@@ -836,6 +1007,18 @@ def render(codes):
         if k == "comp":
             c = codes[e["c"] - 1]
             return "[%s for %s in (%s)]" % (rex(c["expr"]), c["x"], "".join("%d, " % n for n in e["ns"]))
+        raise ValueError(k)
+
+    def rtarget(t):
+        k = t["k"]
+        if k == "tname":
+            return t["x"]
+        if k == "tsub":
+            return "%s[%s]" % (rex(t["o"]), rex(t["i"]))
+        if k == "tattr":
+            return "%s.%s" % (rex(t["o"]), t["a"])
+        if k == "ttuple":
+            return "(%s)" % "".join(rtarget(u) + ", " for u in t["ts"])
         raise ValueError(k)
 
     def block(body, ind):
@@ -849,7 +1032,7 @@ def render(codes):
         if s["g"]:
             out.append(p + "try:")
             plain(s, ind + 4)
-            out.append(p + "except (NameError, TypeError, AttributeError) as _e:")
+            out.append(p + "except (NameError, TypeError, AttributeError, IndexError, ValueError) as _e:")
             out.append(p + "    log(%d, _e)" % s["g"])
         else:
             plain(s, ind)
@@ -901,6 +1084,20 @@ def render(codes):
             block(s["body"], ind + 4)
         elif k == "setattr":
             out.append("%s%s.%s = %s" % (p, rex(s["o"]), s["a"], rex(s["e"])))
+        elif k == "store":
+            out.append("%s%s = %s" % (p, " = ".join(rtarget(t) for t in s["ts"]), rex(s["e"])))
+        elif k == "annassign":
+            out.append("%s%s: int = %s" % (p, s["x"], rex(s["e"])))
+        elif k == "augsub":
+            out.append("%s%s[%s] -= 1" % (p, rex(s["o"]), rex(s["i"])))
+        elif k == "delsub":
+            out.append("%sdel %s[%s]" % (p, rex(s["o"]), rex(s["i"])))
+        elif k == "fort":
+            out.append("%sfor %s in (%s):" % (p, rtarget(s["t"]), "".join("%d, " % n for n in s["ns"])))
+            block(s["body"], ind + 4)
+        elif k == "witht":
+            out.append("%swith cm(%s) as %s:" % (p, rex(s["e"]), rtarget(s["t"])))
+            block(s["body"], ind + 4)
         else:
             raise ValueError(k)
 
@@ -933,7 +1130,7 @@ def prelude(log_list):
         if isinstance(v, int):
             return "int", v
         if isinstance(v, BaseException):
-            for fam in (NameError, TypeError, AttributeError):
+            for fam in (NameError, TypeError, AttributeError, IndexError, ValueError):
                 if isinstance(v, fam):
                     return fam.__name__, 0
             if isinstance(v, E):
@@ -996,7 +1193,9 @@ def finish_log(log_list, exc):
     elif isinstance(exc, TooLong):
         k = "TooLong"
     else:
-        k = "ABORT:" + type(exc).__name__
+        # an exception no guard caught: the machine ends its log with the family name too
+        k = next((fam.__name__ for fam in (NameError, TypeError, AttributeError, IndexError, ValueError) if isinstance(exc, fam)),
+                 "ABORT:" + type(exc).__name__)
     log_list.append({"s": 0, "k": k, "n": 0})
 
 
@@ -1206,6 +1405,308 @@ def cap_program(member, rs):
                        "ambiguous": stack not in ("once", "escape-module")}}
 
 
+# ------------------------------------------------------------------------------ the mention family
+# WHERE does a closure mention the variable it captures?  pyscript decides what a function captures by a static
+# pre-pass over its body that dispatches on the kind of every syntax node; a name is captured only if the pre-pass
+# visits the place where it stands.  Systematic family (round 4): an owner f0(p0) binds a variable x in one of the
+# binding forms MEN_BIND; a capturer K - reached along `via` - mentions x at exactly ONE syntactic position
+# (MEN_POS: inside assignment / for / with / del / augmented-assignment targets as container or as index, as a
+# value in the argument, return, test, context, walrus and list-display positions, as callee, as the object of an
+# attribute store / load / method call); K is called in the owner and once more after the owner returned; the
+# owner reads the effect.  The expected log of every member is computed by the PyScope machine.
+MEN_POS = (  # (position, role of x)
+    ("st", "c"), ("aug", "c"), ("del", "c"), ("tup", "c"), ("chain", "c"), ("for", "c"), ("with", "c"), ("load", "c"),
+    ("st", "i"), ("aug", "i"), ("del", "i"), ("tup", "i"), ("chain", "i"), ("for", "i"), ("with", "i"), ("load", "i"),
+    ("stv", "v"), ("arg", "v"), ("kwarg", "v"), ("ret", "v"), ("test", "v"), ("withctx", "v"), ("sub1", "v"),
+    ("walrus", "v"), ("listv", "v"), ("callee", "f"), ("deco", "f"), ("attrst", "o"), ("attrld", "o"), ("mcall", "o"))
+MEN_VIA = ("direct", "fn", "cls")
+MEN_BIND = ("param", "assign", "ann", "chain", "tuple", "with", "walrus", "for")
+MEN_TARGET_POS = ("st", "aug", "del", "tup", "chain", "for", "with")      # x stands inside a target
+MEN_NAMES = ["v0", "v1", "v2", "p0", "f0", "f1", "f2", "f5", "C0", "C1", "m0", "q0", "self", "o0", "o1", "int", "__init__"]
+
+
+def men_members(nbind=1, shift=0):
+    """quick: every (position, via) with one binding form, rotating (shift: the run's seed); thorough: nbind forms"""
+    out = []
+    for pi, (pos, role) in enumerate(MEN_POS):
+        for vi, via in enumerate(MEN_VIA):
+            for b in range(nbind):
+                out.append((pos, role, via, MEN_BIND[(pi * 3 + vi + shift + b * 3) % len(MEN_BIND)]))
+    return out
+
+
+def men_id(member, rs):
+    return "n:%s/%s/%s/%s/%d" % (tuple(member) + (rs,))
+
+
+def men_program(member, rs):
+    pos, role, via, bind = member
+    r = random.Random(rs * 1000003 + hash_str("/".join(member)))
+    codes = [None]
+    nsite = [0]
+
+    def S():
+        nsite[0] += 1
+        return nsite[0]
+
+    def K(n=[0]):
+        n[0] += 1
+        return I(100 * r.randint(1, 9) + n[0])
+
+    def ev(a, s=None):
+        return {"k": "ev", "s": s or S(), "a": a}
+
+    def call(f, *args, **kws):
+        return {"k": "call", "f": f, "args": list(args), "kws": [{"n": k, "e": v} for k, v in kws.items()]}
+
+    def add(code):
+        codes.append(code)
+        return len(codes)
+
+    def sig(*pk):
+        sg = EMPTY_SIG()
+        sg["pk"] = list(pk)
+        return sg
+
+    def sub(o, i):
+        return {"k": "sub", "o": o, "i": i}
+
+    def tsub(o, i):
+        return {"k": "tsub", "o": o, "i": i}
+
+    def tname(x_):
+        return {"k": "tname", "x": x_}
+
+    def mklist(*es):
+        return {"k": "mklist", "es": list(es)}
+
+    if bind == "for" and role not in ("i", "v"):
+        bind = "assign"                       # a for loop binds ints here
+    x = "p0" if bind == "param" else "v0"
+    method = via == "cls"
+    a = 0 if role == "i" else r.randint(2, 9) * 10
+    # the value of x, written where the owner binds it (param: where the module calls the owner)
+    xval = {"c": mklist(I(a) if bind == "param" else N("p0"), K()), "i": N("p0"), "v": N("p0"), "f": N("f5"),
+            "o": call(N("C1"))}[role]
+    if bind == "param":
+        xval = {"i": I(a), "v": I(a)}.get(role, xval)
+    # ---- the capturer: x occurs exactly once
+    tgt = tsub(N(x), I(0)) if role == "c" else tsub(N("o0"), N(x))
+    ld = sub(N(x), I(0)) if role == "c" else sub(N("o0"), N(x))
+    kret = [{"k": "ret", "e": K(), "g": 0}]
+    kbody = {
+        "st": lambda: [{"k": "store", "ts": [tgt], "e": K(), "g": 0}] + kret,
+        "aug": lambda: [{"k": "augsub", "o": tgt["o"], "i": tgt["i"], "g": 0}] + kret,
+        "del": lambda: [{"k": "delsub", "o": tgt["o"], "i": tgt["i"], "g": 0}] + kret,
+        "tup": lambda: [{"k": "store", "ts": [{"k": "ttuple", "ts": [tgt, tname("v1")]}], "e": mklist(K(), K()), "g": 0},
+                        {"k": "ret", "e": N("v1"), "g": 0}],
+        "chain": lambda: [{"k": "store", "ts": [tname("v1"), tgt], "e": K(), "g": 0}, {"k": "ret", "e": N("v1"), "g": 0}],
+        "for": lambda: [{"k": "fort", "t": tgt, "ns": [K()["n"], K()["n"]], "body": [], "g": 0}] + kret,
+        "with": lambda: [{"k": "witht", "t": tgt, "e": K(), "body": [], "g": 0}] + kret,
+        "load": lambda: [{"k": "ret", "e": ev(ld), "g": 0}],
+        "stv": lambda: [{"k": "store", "ts": [tsub(N("o0"), I(0))], "e": N(x), "g": 0}] + kret,
+        "arg": lambda: [{"k": "ret", "e": ev(call(N("f5"), N(x))), "g": 0}],
+        "kwarg": lambda: [{"k": "ret", "e": ev(call(N("f5"), p0=N(x))), "g": 0}],
+        "ret": lambda: [{"k": "ret", "e": N(x), "g": 0}],
+        "test": lambda: [{"k": "ifpos", "e": N(x), "body": [{"k": "expr", "e": ev(K()), "g": 0}], "g": 0}] + kret,
+        "withctx": lambda: [{"k": "with", "x": "v1", "e": N(x), "body": [{"k": "expr", "e": ev(N("v1")), "g": 0}], "g": 0}] + kret,
+        "sub1": lambda: [{"k": "ret", "e": ev({"k": "sub1", "a": N(x)}), "g": 0}],
+        "walrus": lambda: [{"k": "ret", "e": ev({"k": "walrus", "x": "v1", "a": N(x)}), "g": 0}],
+        "listv": lambda: [{"k": "ret", "e": ev(sub(mklist(N(x), K()), I(0))), "g": 0}],
+        "callee": lambda: [{"k": "ret", "e": ev(call(N(x), K())), "g": 0}],
+        "deco": lambda: [{"k": "def", "x": "f1", "c": add(new_code("func", body=[{"k": "ret", "e": K(), "g": 0}])),
+                          "decos": [N(x)], "g": 0},
+                         {"k": "ret", "e": ev(call(N("f1"))), "g": 0}],
+        "attrst": lambda: [{"k": "store", "ts": [{"k": "tattr", "o": N(x), "a": "q0"}], "e": K(), "g": 0}] + kret,
+        "attrld": lambda: [{"k": "ret", "e": ev({"k": "attr", "o": N(x), "a": "q0"}), "g": 0}],
+        "mcall": lambda: [{"k": "ret", "e": ev(call({"k": "attr", "o": N(x), "a": "m0"})), "g": 0}],
+    }[pos]()
+    ki = add(new_code("func", sig=sig("self") if method else EMPTY_SIG(), body=kbody))
+    kev, kg = S(), S()
+    if method:
+        ci = add(new_code("class", body=[{"k": "def", "x": "m0", "c": ki, "decos": [], "g": 0}]))
+        holder = [{"k": "class", "x": "C0", "c": ci, "g": 0},
+                  {"k": "assign", "x": "v2", "e": call(N("C0")), "g": 0},
+                  {"k": "expr", "e": ev(call({"k": "attr", "o": N("v2"), "a": "m0"}), kev), "g": kg},
+                  {"k": "push", "e": N("v2"), "g": 0}]
+    else:
+        holder = [{"k": "def", "x": "f2", "c": ki, "decos": [], "g": 0},
+                  {"k": "expr", "e": ev(call(N("f2")), kev), "g": kg},
+                  {"k": "push", "e": N("f2"), "g": 0}]
+    if via == "fn":
+        mi = add(new_code("func", body=holder))
+        core = [{"k": "def", "x": "f1", "c": mi, "decos": [], "g": 0}, {"k": "expr", "e": call(N("f1")), "g": S()}]
+    else:
+        core = holder
+    # ---- the owner: binds x in the form `bind`, runs the core, reads the effect
+    obind = {
+        "param": lambda: [],
+        "assign": lambda: [{"k": "assign", "x": "v0", "e": xval, "g": 0}],
+        "ann": lambda: [{"k": "annassign", "x": "v0", "e": xval, "g": 0}],
+        "chain": lambda: [{"k": "store", "ts": [tname("v1"), tname("v0")], "e": xval, "g": 0}],
+        "tuple": lambda: [{"k": "store", "ts": [{"k": "ttuple", "ts": [tname("v0"), tname("v1")]}], "e": mklist(xval, K()), "g": 0}],
+        "with": lambda: [{"k": "with", "x": "v0", "e": xval, "body": [], "g": 0}],
+        "walrus": lambda: [{"k": "expr", "e": {"k": "walrus", "x": "v0", "a": xval}, "g": 0}],
+        "for": lambda: [{"k": "for", "x": "v0", "it": {"k": "ints", "ns": [a]}, "body": [], "g": 0}],
+    }[bind]()
+    eff = []
+    effect_sites = []
+
+    def read(e):
+        st = S()
+        effect_sites.append(st)
+        eff.append({"k": "expr", "e": ev(e, st), "g": S()})
+    if role == "c":
+        read(N(x))
+        read(sub(N(x), I(0)))
+    elif role == "o":
+        read({"k": "attr", "o": N(x), "a": "q0"})
+    oi = add(new_code("func", sig=sig("p0"), body=obind + core + eff))
+    # ---- the module
+    mbody = []
+    if role == "i" or pos == "stv":
+        mbody.append({"k": "assign", "x": "o0", "e": mklist(K(), K(), K()), "g": 0})
+    if role in ("v", "f"):
+        fi = add(new_code("func", sig=sig("p0"), body=[{"k": "ret", "e": ev(N("p0")), "g": 0}]))
+        mbody.append({"k": "def", "x": "f5", "c": fi, "decos": [], "g": 0})
+    if role == "o":
+        mi_ = add(new_code("func", sig=sig("self"), body=[{"k": "ret", "e": ev({"k": "attr", "o": N("self"), "a": "q0"}), "g": 0}]))
+        c1 = add(new_code("class", body=[{"k": "assign", "x": "q0", "e": K(), "g": 0},
+                                         {"k": "def", "x": "m0", "c": mi_, "decos": [], "g": 0}]))
+        mbody.append({"k": "class", "x": "C1", "c": c1, "g": 0})
+    if r.random() < 0.5 and x != "p0":
+        mbody.append({"k": "assign", "x": x, "e": I(777), "g": 0})          # a decoy global named like the variable
+    mbody.append({"k": "def", "x": "f0", "c": oi, "decos": [], "g": 0})
+    mbody.append({"k": "expr", "e": ev(call(N("f0"), xval if bind == "param" else I(a))), "g": S()})
+    later = call({"k": "attr", "o": N("o1"), "a": "m0"}) if method else call(N("o1"))
+    mbody.append({"k": "for", "x": "o1", "it": {"k": "box"}, "body": [{"k": "expr", "e": ev(later), "g": S()}], "g": 0})
+    if role == "i" or pos == "stv":
+        for e in (N("o0"), sub(N("o0"), I(0))):
+            st = S()
+            effect_sites.append(st)
+            mbody.append({"k": "expr", "e": ev(e, st), "g": S()})
+    codes[0] = new_code("module", body=mbody)
+    # corrupted recordings of this kind: the effect of K's statement is lost / K raised NameError where it is called
+    corr = [{"name": "lost", "site": st, "to": "inc"} for st in effect_sites[-1:]]
+    corr.append({"name": "uncaptured", "site": kev, "to": {"s": kg, "k": "NameError", "n": 0}})
+    return {"seed": men_id(member, rs), "codes": codes, "names": MEN_NAMES, "corruptions": corr,
+            "family": {"fam": "mention", "pos": pos, "role": role, "via": via, "bind": bind,
+                       "encsub": pos in MEN_TARGET_POS, "ann": bind == "ann"}}
+
+
+# ------------------------------------------------------------------------------ the exit family
+# WHOSE declarations govern a function's names after a callee left by an exception?  A caller f0 calls a callee f1
+# whose `global` / local status of a name differs from the caller's; the callee leaves normally or by an exception
+# out of its body (an unbound name, an exception out of a nested call, a TypeError of a call made in the body); the
+# caller catches it and then assigns / deletes / defines that name, or reads one of its own not-yet-assigned locals
+# that also exists as a global; a function reading the GLOBAL table and the module show where the effect went.
+EXIT_KIND = ("return", "raise", "nested", "typeerr")
+EXIT_STATUS = ("callee-global", "caller-global", "same-local")
+EXIT_ACTION = ("assign", "del", "def", "read")
+EXIT_DEPTH = ("top", "nested")
+EXIT_NAMES = ["v0", "v1", "v2", "f0", "f1", "f2", "f3", "f5", FREEVAR, "abs", "o0", "o1", "__init__"]
+
+
+def exit_members():
+    return [(e, s_, a, d) for e in EXIT_KIND for s_ in EXIT_STATUS for a in EXIT_ACTION for d in EXIT_DEPTH]
+
+
+def exit_program(member, rs):
+    exitk, status, action, depth = member
+    r = random.Random(rs * 1000003 + hash_str("/".join(member)))
+    codes = [None]
+    nsite = [0]
+
+    def S():
+        nsite[0] += 1
+        return nsite[0]
+
+    def K(n=[0]):
+        n[0] += 1
+        return I(100 * r.randint(1, 9) + n[0])
+
+    def ev(a, s=None):
+        return {"k": "ev", "s": s or S(), "a": a}
+
+    def call(f, *args):
+        return {"k": "call", "f": f, "args": list(args), "kws": []}
+
+    def add(code):
+        codes.append(code)
+        return len(codes)
+
+    x = "v0"
+    # the callee
+    gbody = []
+    if status != "callee-global":
+        gbody.append({"k": "assign", "x": x, "e": K(), "g": 0})                  # x is the callee's local
+    else:
+        gbody.append({"k": "expr", "e": ev(N(x)), "g": S()})                     # reads the global
+    if exitk == "raise":
+        gbody.append({"k": "expr", "e": ev(N(FREEVAR)), "g": 0})
+    elif exitk == "nested":
+        g2 = add(new_code("func", body=[{"k": "expr", "e": ev(N(FREEVAR)), "g": 0}]))
+        gbody += [{"k": "def", "x": "f2", "c": g2, "decos": [], "g": 0}, {"k": "expr", "e": call(N("f2")), "g": 0}]
+    elif exitk == "typeerr":
+        gbody.append({"k": "expr", "e": call(N("abs")), "g": 0})
+    gbody.append({"k": "ret", "e": K(), "g": 0})
+    gi = add(new_code("func", globals=[x] if status == "callee-global" else [], body=gbody))
+    # the reader of the GLOBAL table
+    rsite = S()
+    hi = add(new_code("func", globals=[x, "v1"], body=[{"k": "expr", "e": ev(N("v1")), "g": S()},
+                                                       {"k": "ret", "e": ev(N(x), rsite), "g": 0}]))
+    # the caller
+    cg = [x] if status == "caller-global" else []
+    fbody = [{"k": "assign", "x": x, "e": K(), "g": 0},
+             {"k": "def", "x": "f1", "c": gi, "decos": [], "g": 0},
+             {"k": "def", "x": "f5", "c": hi, "decos": [], "g": 0},
+             {"k": "expr", "e": ev(call(N("f1"))), "g": S()}]
+    if action == "assign":
+        fbody += [{"k": "assign", "x": x, "e": K(), "g": 0}]
+    elif action == "del":
+        fbody += [{"k": "del", "x": x, "g": S()}]
+    elif action == "def":
+        di = add(new_code("func", body=[{"k": "ret", "e": K(), "g": 0}]))
+        fbody += [{"k": "def", "x": x, "c": di, "decos": [], "g": 0}]
+    else:
+        fbody += [{"k": "expr", "e": ev(N("v1")), "g": S()}]                     # v1: a local assigned only below
+    fbody += [{"k": "expr", "e": ev(N(x)), "g": S()},
+              {"k": "expr", "e": ev(call(N("f5"))), "g": S()},
+              {"k": "assign", "x": "v1", "e": K(), "g": 0},
+              {"k": "ret", "e": ev(N("v1")), "g": 0}]
+    fi = add(new_code("func", globals=cg, body=fbody))
+    mbody = [{"k": "assign", "x": x, "e": K(), "g": 0}, {"k": "assign", "x": "v1", "e": K(), "g": 0}]
+    if depth == "nested":
+        oi = add(new_code("func", body=[{"k": "def", "x": "f0", "c": fi, "decos": [], "g": 0},
+                                        {"k": "ret", "e": call(N("f0")), "g": 0}]))
+        mbody += [{"k": "def", "x": "f3", "c": oi, "decos": [], "g": 0}, {"k": "expr", "e": ev(call(N("f3"))), "g": S()}]
+    else:
+        mbody += [{"k": "def", "x": "f0", "c": fi, "decos": [], "g": 0}, {"k": "expr", "e": ev(call(N("f0"))), "g": S()}]
+    msite = S()
+    mbody += [{"k": "expr", "e": ev(N(x), msite), "g": S()}, {"k": "expr", "e": ev(N("v1")), "g": S()}]
+    codes[0] = new_code("module", body=mbody)
+    corr = [{"name": "table", "site": rsite, "to": "inc"}, {"name": "table2", "site": msite, "to": "inc"}]
+    return {"seed": "x:%s/%s/%s/%s/%d" % (member + (rs,)), "codes": codes, "names": EXIT_NAMES, "corruptions": corr,
+            "family": {"fam": "exit", "exit": exitk, "status": status, "action": action, "depth": depth,
+                       # (the reader of the global table raises too when the caller has deleted the global)
+                       "excexit": exitk != "return" or (status == "caller-global" and action == "del")}}
+
+
+def apply_corruption(log, c):
+    """the log with the first event at site c['site'] changed (value + 1, or replaced); None if there is none"""
+    for j, e in enumerate(log):
+        if e["s"] == c["site"]:
+            lg = copy.deepcopy(log)
+            if c["to"] == "inc":
+                if e["k"] not in ("int", "list"):
+                    return None
+                lg[j]["n"] += 1
+            else:
+                lg[j] = dict(c["to"])
+            return lg
+    return None
+
+
 def hash_str(t):
     import zlib
     return zlib.crc32(t.encode())
@@ -1275,7 +1776,9 @@ def work_scope(job):
             continue
         progs.append((seed, not loci(g[0])) + g)
     extra = {}
-    for c in (job.get("explicit") or []) + [cap_program(tuple(m), rs) for m, rs in job.get("capture") or []]:
+    for c in ((job.get("explicit") or []) + [cap_program(tuple(m), rs) for m, rs in job.get("capture") or []]
+              + [men_program(tuple(m), rs) for m, rs in job.get("mention") or []]
+              + [exit_program(tuple(m), rs) for m, rs in job.get("exit") or []]):
         progs.append((c["seed"], not loci(c["codes"]), c["codes"], render(c["codes"]), {}))
         extra[c["seed"]] = c
     stats["swap"] = []
@@ -1325,6 +1828,12 @@ def work_scope(job):
                     logs.append(("corrupt-swap", lg))
                     stats["corrupt"].append([pid, "corrupt-swap"])
                     stats["swap"].append(pid)
+            for c in (x.get("corruptions") or []) if clog == plog else []:
+                lg = apply_corruption(plog, c)
+                if lg is not None:
+                    logs.append(("corrupt-" + c["name"], lg))
+                    stats["corrupt"].append([pid, "corrupt-" + c["name"]])
+                    stats["mention_corrupt"] = stats.get("mention_corrupt", 0) + 1
             cases.append(case_of(pid, codes, logs, x.get("names")))
             meta[pid] = {"seed": seed, "masked": masked, "loci": sorted(loci(codes)), "src": src, "constructs": sorted(cs)}
             if "family" in x:
